@@ -113,7 +113,11 @@ TEXTS = {
                   'its neighbours, and only the transformed tensor\'s buffer can change; WHOLE RUNS of the performer, in terms of the '
                   'input model: a tensor no instruction names keeps dtype/buffer/annotation and its readers; a tensor quantized '
                   'in place gets the selected dtype and keeps its readers; the tensor created by the last instruction of a '
-                  'nested list is read by exactly the original operators it lists, at their original operand slots. '
+                  'nested list is read by exactly the original operators it lists, at their original operand slots -- '
+                  'also stated with the instruction generator in front and every remaining hypothesis decided by an '
+                  'executable check (last_hypb, proved sound) that correspondence I evaluates in Coq on every generated '
+                  'instruction list (NO_QUANTIZE instructions are proved inert and dropped first); no policy config '
+                  'quantizes activations per channel. '
                   'Tied by correspondences P, I, T/E; '
                   'a per-operand dtype oracle derived from the recipe resolution runs on every returned model.'),
         'note': ('The instruction generator is covered by two theorems over ALL plan entries (no consumer position is lost; '
